@@ -129,6 +129,15 @@ def check(ctx):
     fc2 = ctx.model.module("dask/bag/chunk.py").func("foldby_combine2")
     ok = (all(eqv(r.value, "combine(acc, x[1])") for r in returns(fc2)) and bool(returns(fc2)))
     ctx.ob("ARGPOS.foldby-combine.order", fc2, "foldby_combine2(combine, acc, x) = combine(acc, x[1])", ok, "" if ok else "partials are merged in reversed partition order: wrong for non-commutative combine functions")
+    # ---------------- lazify: reify of a fused inner node is stripped only if that node is consumed ONCE
+    lt = ctx.model.module("dask/bag/core.py").func("lazify_task")
+    refs = find("refs = _count_references(subgraph.values())", lt)
+    inner = [d_ for d_ in ast.walk(lt) if isinstance(d_, ast.DictComp) and "subgraph.items()" in unparse(d_)]
+    ok = len(refs) == 1 and len(inner) == 1 and eqv(inner[0].value, "lazify_task(v, refs.get(k, 0) > 1)") and dominates(lt, refs[0][0], enclosing_stmt(inner[0]) if "enclosing_stmt" in globals() else refs[0][0])
+    ctx.ob("EFFECT.lazify.single-consumer", lt, "inside a fused subgraph reify() is kept on nodes referenced more than once (lazify_task(v, refs[k] > 1))", ok, "" if ok else "a lazy iterator shared by two arguments is consumed alternately: zip(b, b) / b.map(f, b) pair consecutive elements and drop half of the data")
+    cr = ctx.model.module("dask/bag/core.py").func("_count_references")
+    ok = bool(find("counts[o.key] += 1", cr)) and any(isinstance(n, ast.If) and eqv(n.test, "isinstance(o, TaskRef)") for n in ast.walk(cr)) and bool(find("stack.extend(o.args)", cr))
+    ctx.ob("EFFECT.lazify.count-multiplicity", cr, "_count_references counts every TaskRef occurrence (with multiplicity), descending through task arguments", ok, "" if ok else "counting distinct dependencies says 1 for b.map(f, b): the shared node is lazified again")
 
 
 VARIANTS = [
